@@ -2,14 +2,15 @@
 From SX Require Import Base.Str Model.Restr.
 
 (* residues addressed by an atom item: its own _n suffix, else the keyword's number, all residues of the keyword's
-   class, else residue 0 (a keyword suffix _* is read as residue 0 here, see DESIGN.md C17) *)
+   class, all residues of the file for the keyword suffix _*, else residue 0 *)
 Definition addressed (fi : file_index) (s : suffix) (own : option Z) : list Z :=
   match own with
   | Some n => [n]
   | None => match s with
             | SNum n => [n]
             | SClass c => map fst (filter (fun r => str_eqb (snd r) c) (fi_residues fi))
-            | SNone | SStar => [0%Z]
+            | SStar => map fst (fi_residues fi)
+            | SNone => [0%Z]
             end
   end.
 
